@@ -15,7 +15,9 @@ returning non-text is outside "failures"); no astronomically wide format specs (
 
 Violations are classified by delta debugging on the decoration fields: the minimal set of
 log_time/log_level/log_namespace whose removal stops the exception names the mechanism
-(log-decoration-raises-time / -level / -namespace); everything else keeps a generic key.
+(log-decoration-raises-time / -level / -namespace), and only if the function really decorates with
+that field, the value is not an ordinary one and rendering the value on its own raises; everything
+else keeps a generic key (format-raises, non-text-result).
 """
 LEVEL = "exploration"
 ENGINE = "core"
@@ -481,6 +483,34 @@ def ordinary(field, recipe):
     return recipe[0] == "str"
 
 
+def confirms(field, ev, label, stats):
+    """Direct probe of the mechanism: the function decorates with this field, and rendering the
+    field's value on its own raises (so a format string that merely mentions log_time etc. does not
+    get the narrow key)."""
+    from twisted.logger._format import formatTime
+
+    uses_time = "formatEventAsClassicLogText" in label or "ts=1" in label
+    uses_system = "formatEventAsClassicLogText" in label or "sys=1" in label
+    e = materialise(ev, stats)
+    v = e.get(field)
+    try:
+        if field == "log_time":
+            if not uses_time:
+                return False
+            formatTime(v)
+        elif field == "log_level":
+            if not uses_system:
+                return False
+            "{}".format(v.name)
+        else:
+            if not uses_system:
+                return False
+            "{}".format(v)
+    except Exception:
+        return True
+    return False
+
+
 def excname(x):
     try:
         return "%s: %s" % (type(x).__name__, x)
@@ -516,7 +546,7 @@ def check_event(ctx, case, calls):
             # the exception with every other culprit removed is the one this field causes on its own
             single = outcome(fn, ev, stats, [x for x in culprits if x != c])[1]
             w2 = dict(wit, culprit=c, culprit_alone_raises=excname(single)[:300])
-            if c in narrow and not ordinary(c, field_of(ev, c)):
+            if c in narrow and not ordinary(c, field_of(ev, c)) and confirms(c, ev, label, stats):
                 ctx.violation(narrow[c], "%s raises instead of returning text because of the event's %s" % (short, c), w2)
             elif c == "log_failure" and "EvilStr" in repr(field_of(ev, "log_failure")) and "evil __str__" in excname(single):
                 ctx.violation("traceback-error-str-raises", "_formatTraceback calls str() on the exception raised by getTraceback(); that str() raises", w2)
